@@ -328,6 +328,8 @@ func (r *SparseFloat64Vector) MdotV(a ConstMatrix, b ConstVector) Vector {
     panic("matrix/vector dimensions do not match!")
   }
   if n == 0 || m == 0 {
+    // empty sums
+    r.Reset()
     return r
   }
   if r.AT(0) == b.ConstAt(0) {
@@ -353,6 +355,8 @@ func (r *SparseFloat64Vector) VdotM(a ConstVector, b ConstMatrix) Vector {
     panic("matrix/vector dimensions do not match!")
   }
   if n == 0 || m == 0 {
+    // empty sums
+    r.Reset()
     return r
   }
   if r.AT(0) == a.ConstAt(0) {
